@@ -334,6 +334,67 @@ def _swpoly_one(c):
 replay_swpoly = common.per_case(_swpoly_one, 'steady:swpoly')
 
 
+def _pepoly_one(c):
+  """PrimitivePoly.tla: dry primitive equations with a tracer on two levels, polynomial fields."""
+  import math
+  np, jax, jnp = spectral.np_jax()
+  from dinosaur import coordinate_systems, primitive_equations as pe, scales, sigma_coordinates
+  out = []
+  brief = {k: c[k] for k in ('b', 'tref', 'ch', 'grid')}
+
+  def bad(sig, detail):
+    out.append({'case': c, 'sig': sig, 'detail': f'{brief}: {detail}'})
+  b = np.array(c['b'], np.float64) / c['den']
+  K = len(b) - 1
+  kappa, Rgas, omega = fl(c['kappa']), fl(c['gas']), fl(c['omega'])
+  grav = 2.0
+  grid = dataflow.make_grid(c['grid'])
+  coords = coordinate_systems.CoordinateSystem(grid, sigma_coordinates.SigmaCoordinates(b))
+  specs = pe.PrimitiveEquationsSpecs(radius=1.0, angular_velocity=omega, gravity_acceleration=grav,
+                                     ideal_gas_constant=Rgas, water_vapor_gas_constant=2.0,
+                                     water_vapor_isobaric_heat_capacity=3.0, kappa=kappa, scale=scales.DEFAULT_SCALE)
+  centers = (b[1:] + b[:-1]) / 2
+  alpha = [math.log(centers[j + 1] / centers[j]) / 2 for j in range(K - 1)] + [-math.log(centers[-1])]
+  lon, sinlat = (np.asarray(v, np.float64) for v in grid.nodal_mesh)
+  cosl = np.sqrt(1 - sinlat ** 2)
+  X, Y, Z = cosl * np.cos(lon), cosl * np.sin(lon), sinlat
+  real = np.zeros(X.shape, bool)
+  real[:grid.longitude_nodes, :grid.latitude_nodes] = True
+  ev = lambda t: np.where(real, _peval(t, X, Y, Z), 0.0)
+
+  def aev(x):       # atom-linear polynomial: {'0': poly, '1': poly, ...} or list
+    items = x.items() if isinstance(x, dict) else enumerate(x)
+    tot = np.zeros_like(X)
+    for a, t in items:
+      a = int(a)
+      tot = tot + (1.0 if a == 0 else alpha[a - 1]) * ev(t)
+    return tot
+  modal = lambda nod: np.asarray(grid.to_modal(jnp.asarray(nod)))
+  lv = c['levels']
+  st = pe.State(jnp.asarray(np.stack([modal(ev(l['zeta'])) for l in lv])), jnp.asarray(np.stack([modal(ev(l['delta'])) for l in lv])),
+                jnp.asarray(np.stack([modal(ev(l['tp'])) for l in lv])), jnp.asarray(modal(ev(c['s']))[None]),
+                {'q': jnp.asarray(np.stack([modal(ev(l['q'])) for l in lv]))})
+  eq = pe.PrimitiveEquations(np.array(c['tref'], np.float64), jnp.asarray(modal(ev(c['oro']) / grav)), coords, specs)
+  ex, im = eq.explicit_terms(st), eq.implicit_terms(st)
+  tot = jax.tree_util.tree_map(lambda x, y: np.asarray(grid.to_nodal(x + y)), ex, im)
+  exp = {'vorticity': np.stack([ev(l['vorticity']) for l in lv]), 'divergence': np.stack([aev(l['divergence']) for l in lv]),
+         'temperature_variation': np.stack([aev(l['temperature']) for l in lv]), 'log_surface_pressure': ev(c['lnps'])[None],
+         'tracer': np.stack([ev(l['tracer']) for l in lv])}
+  got = {'vorticity': tot.vorticity, 'divergence': tot.divergence, 'temperature_variation': tot.temperature_variation,
+         'log_surface_pressure': tot.log_surface_pressure, 'tracer': tot.tracers['q']}
+  for f in exp:
+    scale = 1.0 + float(np.abs(exp[f]).max())
+    err = np.where(real, np.abs(got[f] - exp[f]), 0.0)
+    if not np.all(np.isfinite(got[f])) or err.max() > 5e-11 * scale:
+      j = np.unravel_index(np.argmax(err), err.shape)
+      bad(f'steady:pepoly:{f}', f'total {f} tendency at level {int(j[0])}, node (lon {lon[j[1], j[2]]:.4f}, sin(lat) {sinlat[j[1], j[2]]:.4f}): '
+          f'code {got[f][j]!r}, continuous equations {exp[f][j]!r} (max |field| {scale - 1:.3g}, max error {err.max():.3e})')
+  return out
+
+
+replay_pepoly = common.per_case(_pepoly_one, 'steady:pepoly')
+
+
 def replay(ctx, kind, cases):
   if kind == 'column':
     for m in replay_column([cases]):
@@ -341,6 +402,10 @@ def replay(ctx, kind, cases):
     return
   if kind == 'swpoly':
     for m in replay_swpoly(cases):
+      ctx.record(kind, m)
+    return
+  if kind == 'pepoly':
+    for m in replay_pepoly(cases):
       ctx.record(kind, m)
     return
   for m in replay_balanced(cases):
@@ -416,14 +481,32 @@ def run(ctx):
   ctx.sample({'shallow_water_polynomial_state': {k: sw_cases[len(sw_cases) // 2][k] for k in ('a', 'omega', 'oro', 'grid')},
               'layer0': sw_cases[len(sw_cases) // 2]['layers'][0]})
   ctx.notes['shallow_water_polynomial_cases'] = len(sw_cases)
+  # ... and the dry primitive equations with a tracer on two levels (cubic products: larger grids)
+  rp = ctx.tlc('PrimitivePoly', 'PrimitivePoly_quick.cfg' if q else 'PrimitivePoly_thorough.cfg', tag='pepoly', workers=6, timeout=7200)
+  ctx.require_actions(rp, ['Diagnose', 'Vorticity', 'Divergence', 'Temperature', 'Rest'])
+  pe_cases = sorted(rp.cases, key=lambda c: json.dumps([c['b'], c['tref'], c['ch']]))
+  if len(pe_cases) < 8:
+    raise common.MachineryError('vacuous export of PrimitivePoly')
+  pgrids = [dict(M=10), dict(M=10, impl='fast', mult=4), dict(M=11, offset=0.2)]
+  for i, c in enumerate(pe_cases):
+    c['grid'] = pgrids[(i + ctx.seed) % len(pgrids)]
+  for m in common.parallel_map('c05', 'replay_pepoly', pe_cases, tag='pep', outdir=os.path.join(ctx.out, 'par')):
+    ctx.record('pepoly', m)
+  ctx.replayed += len(pe_cases)
+  ctx.comparisons += 5 * len(pe_cases)
+  for c in pe_cases:
+    ctx.distinct.add(json.dumps(['pepoly', c['b'], c['tref'], c['ch'], c['grid']]))
+  ctx.sample({'primitive_polynomial_state': {k: pe_cases[0][k] for k in ('b', 'tref', 'ch', 's', 'oro', 'grid')},
+              'level0_temperature_tendency': pe_cases[0]['levels'][0]['temperature']})
+  ctx.notes['primitive_polynomial_cases'] = len(pe_cases)
   ctx.assumptions += [
       'the first clause in full generality (pointwise agreement with the continuous equations on all alias-free inputs) is decided only on '
       'the zonal-polynomial subspace, the resting family, the column family (one harmonic of divergence over horizontally uniform '
       'temperature / tracer / surface pressure: temperature, tracer and surface-pressure tendencies) and, for the layered shallow-water '
       'equations, on arbitrary (non-zonal, unbalanced) combinations of harmonics of degree <= 2 written as polynomials in (x, y, z) '
-      '(SpherePoly.tla: products of fields are polynomials, no Gaunt coefficients needed); for the primitive equations general products of non-zonal harmonics are outside the exact machine so far '
+      '(SpherePoly.tla: products of fields are polynomials, no Gaunt coefficients needed), and for the dry primitive equations with a tracer on two levels (PrimitivePoly.tla: all five tendencies, log-sigma atoms kept symbolic); the moist variants and more than two levels are decided on the balanced / column families only '
       'arithmetic; steady_state_jw (transcendental profile) and the library-built shallow-water states are not used as oracles',
       'zero means < 1e-10 of the largest individual term of the same equation']
   return ctx.finish(rule='one case per balanced configuration of Balanced.tla (solid-body rotation: radius x rotation rate x surface-pressure '
                          'curvature x per-level winds x humidity x split; rest: radius x total wavenumber x split, 3 labels; jets: 1-3 layers x '
-                         'polynomial profiles x densities) x grids; column family: one case per (level set, reference profile, divergence column, temperature column); shallow-water polynomial family: one case per (psi, chi, phi) menu choice x radius x rotation x orography x 1-2 layers x grid')
+                         'polynomial profiles x densities) x grids; column family: one case per (level set, reference profile, divergence column, temperature column); shallow-water polynomial family: one case per (psi, chi, phi) menu choice x radius x rotation x orography x 1-2 layers x grid; primitive polynomial family: one case per (level set, reference profile, menu choice of psi/chi/T'/ln ps/orography per level) x grid')
